@@ -225,6 +225,28 @@ func init() {
 		fset := token.NewFileSet()
 		file, err := parser.ParseFile(fset, filepath.Join(repoRoot(), "decoder.go"), nil, 0)
 		lists := map[string][]string{}
+		conc := []string{}
+		if err == nil {
+			// goroutines, channels, deferred calls anywhere in decoder.go: the model's loop is
+			// sequential and its exits are the ones listed below
+			ast.Inspect(file, func(n ast.Node) bool {
+				switch n.(type) {
+				case *ast.GoStmt:
+					conc = append(conc, "go")
+				case *ast.SendStmt:
+					conc = append(conc, "send")
+				case *ast.ChanType:
+					conc = append(conc, "chan")
+				case *ast.SelectStmt:
+					conc = append(conc, "select")
+				case *ast.DeferStmt:
+					conc = append(conc, "defer")
+				}
+				return true
+			})
+		} else {
+			conc = append(conc, "unreadable")
+		}
 		if err == nil {
 			for _, d := range file.Decls {
 				if fn, ok := d.(*ast.FuncDecl); ok && fn.Body != nil {
@@ -242,6 +264,11 @@ func init() {
 			}
 			fmt.Fprintf(&b, "def conditionsOf%s : List String := [\n  %s]\n\n", strings.ToUpper(name[:1])+name[1:], strings.Join(q, ",\n  "))
 		}
+		cq := []string{}
+		for _, x := range conc {
+			cq = append(cq, strconv.Quote(x))
+		}
+		fmt.Fprintf(&b, "/-- go statements, channel operations, selects and deferred calls in decoder.go -/\ndef decoderConcurrency : List String := [%s]\n\n", strings.Join(cq, ", "))
 		b.WriteString("end Gedcom.Generated\n")
 		return b.String()
 	}
